@@ -41,7 +41,7 @@ type C17Case struct {
 	Repeat int `json:"repeat,omitempty"`
 }
 
-const c17Rule = "generated package with at least one stream step x item sequences whose adjacent items differ in shape (independent draws: map key sets, optional presence, vector lengths, union cases) x 4-6 variants drawn from: two block partitions of the reference input, C++ CopyTo buffer sizes {1,2,3,7,64} per stream (buffer 1 = single-item overloads, >1 = batch overloads), Python write groupings {copy_to, list, lazy, one-by-one, chunks of 2/3/5}, binary and NDJSON on either side; oracle: output = the items written, in order, for every variant; non-trivial = some stream has at least 3 items with a batch size > 1 that does not divide the block sizes; distinct = hash of model + values + variants"
+const c17Rule = "generated package with at least one stream step x item sequences whose adjacent items differ in shape (independent draws: map key sets, optional presence, vector lengths, union cases) x 4-6 variants drawn from: two block partitions of the reference input, C++ CopyTo buffer sizes {1,2,3,7,64} per stream (buffer 1 = single-item overloads, >1 = batch overloads), Python write groupings {copy_to, list, lazy, one-by-one, chunks of 2/3/5}, binary and NDJSON on either side; a quarter of the cases repeat one stream step (preferring items with arrays/vectors of fixed-width elements; 45% of the models get a stream of records made of such bulk data) until it spans several 64 KiB buffers, and C++ buffer sizes are also drawn from the sizes of the first blocks at hand (a read buffer that fills exactly where a block ends); oracle: output = the items written, in order, for every variant; non-trivial = some stream has at least 3 items with a batch size > 1 that does not divide the block sizes; distinct = hash of model + values + variants"
 
 func genC17(t *rapid.T) (C17Case, bool) {
 	cfg := rtGenConfig()
